@@ -1,36 +1,54 @@
-"""C03 part (c): scope chains.  One name x is declared, per level of the chain
+"""C03 part (c): lexical scoping.  One name x is declared in several scopes as an ordinary identifier (object / typedef
+name / enumeration constant), as a tag and as a label; every declaration gives x a distinct observable.  Probes after
+every scope entry and exit record what x denotes there.  The model is the plain C11 6.2.1 rule: a use binds to the
+declaration in the innermost enclosing scope that textually precedes it; ordinary identifiers, tags and labels are
+separate name spaces.
 
-      0 file scope > 1 parameter > 2 function body block > 3 for-init > 4 compound body of the for
+Two families of programs (skeletons with declaration slots):
 
-as an ordinary identifier (object / typedef name / enumeration constant), as a tag (struct / union / enum) and as a
-label; every declaration gives x a distinct sizeof / value.  Probes after every scope entry and exit record what x
-denotes there.  The model is the plain C11 6.2.1 rule: a use binds to the declaration in the innermost enclosing scope
-that precedes it; ordinary identifiers, tags and labels are separate name spaces; parameter declarations and the
-outermost block of the body are ONE scope (so a second declaration there is a constraint violation: not generated).
+ chain   0 file scope > 1 parameter > 2 function body block > 3 for-init > 4 compound body of the for
+         (parameter declarations and the outermost block of the body are ONE scope).
+         Tag declaration kinds per level: definition  struct / union / enum
+                                          sfwd / ufwd    `struct x;` - an INCOMPLETE type declared in that scope (hides an
+                                                         outer x, 6.7.2.3p7), never completed there; at level 1 it is the
+                                                         first mention `struct x *p` in the parameter list (6.7.2.3p8)
+                                          sfwdc / ufwdc  `struct x;` ... completed LATER in the same scope, after the nested
+                                                         scopes (which may define their own x) were closed
+         a level-1 sfwd/ufwd may be completed by a level-2 definition (same scope).
+ stmt    the scopes C99 added (6.8.4p3, 6.8.5p5: every selection / iteration statement is a block, and so is each of its
+         substatements) and function prototype scope (6.2.1p4): x is declared at file scope, in the function body, inside
+         the controlling expression (`sizeof(struct x {..})`, `sizeof(enum { x = .. })`) and inside the NON-compound body
+         of if / while / do / for / switch; or in the parameter list of a function-pointer declarator / function
+         declaration at block or file scope.  Probes in the condition, the body, the else branch / for increment and after
+         the statement.
+
+Observables of the binding of the tag x at a probe site (4 slots per site: ordinary, tag-size, tag-identity, tag-object):
+ tag-size      sizeof(K x) (+ 1000 * sizeof(*q) for the pointer q declared next to the binding's own declaration) - only
+               where the model says the type is complete at that point of the text
+ tag-identity  pointer-to-incomplete compatibility: next to every struct/union declaration at level L a pointer
+               `K x *qL` is declared; the probe is the sum over all visible qL of _Generic(qL, K x *: 1 << L, default: 0)
+ tag-object    two local objects of the type, written through the last byte, assigned and read back (the sizes used by
+               code generation for the objects and the copy must be those of the type the use binds to)
 """
 import itertools
 
 UNSET = -7777
-NSITES = 9          # s0 file, s1 body entry, s2 after block decls, s3 for condition, s4a for body entry, s4 after inner decls,
-                    # s3b for increment (after the body's scope ended), s5 after the for statement, s6 file scope after the function
-SITE_NAMES = ["file", "body-entry", "after-block-decls", "for-cond", "for-body-entry", "after-inner-decls", "for-inc", "after-for", "file-after-function"]
+NSLOT = 4
+MAXSITES = 11
+NS = NSLOT * MAXSITES
+SLOT_NAMES = ["ordinary", "tag", "tag-identity", "tag-object"]
+COPIED = 77
 
-# for-init: 6.8.5p3 allows only objects (gcc rejects tags, typedefs and enumerators declared there)
-ORD = {0: (None, "obj", "typedef", "enumr"), 1: (None, "obj"), 2: (None, "obj", "typedef", "enumr"), 3: (None, "obj"),
-       4: (None, "obj", "typedef", "enumr")}
-TAG = {0: (None, "struct", "union", "enum"), 1: (None, "struct", "union", "enum"), 2: (None, "struct", "union", "enum"), 3: (None,),
-       4: (None, "struct", "union", "enum")}
-L3_OK = {(None, None), ("obj", None)}
-LABELS = (None, "block", "inner")
+BASE = {"struct": "struct", "union": "union", "enum": "enum", "sfwd": "struct", "ufwd": "union", "sfwdc": "struct", "ufwdc": "union"}
+FWD = ("sfwd", "ufwd", "sfwdc", "ufwdc")
+LATE = ("sfwdc", "ufwdc")
+DEFS = ("struct", "union", "enum")
 
 
-def value(level, kind, case=None):
+def value(level, kind):
     """the observable of a declaration: sizeof for obj/typedef/struct/union, the constant for enumr, 4 for enum tags"""
     if kind == "obj":
-        if level == 1: return 2                     # parameter: short x
-        if level == 3 and case is not None and case.tag[3] is not None:      # for (struct x {..} x; ..): object of the tag's type
-            return value(3, case.tag[3])
-        return 10 + level
+        return 2 if level == 1 else 10 + level          # parameter: short x
     if kind == "typedef": return 20 + level
     if kind == "enumr": return 30 + level
     if kind == "struct": return 40 + level
@@ -39,31 +57,27 @@ def value(level, kind, case=None):
     raise ValueError(kind)
 
 
-class Case:
-    def __init__(self, ord_, tag, label):
-        self.ord, self.tag, self.label = tuple(ord_), tuple(tag), label
+class D:
+    """one declared entity"""
+    def __init__(self, level, kind):
+        self.level, self.kind = level, kind
+        self.base = BASE.get(kind, kind)
+        self.complete = kind not in FWD
+        self.size = value(level, self.base) if self.complete and kind in BASE else None
+        self.q = None           # level of the pointer object declared next to it
 
-    def cid(self):
-        def f(v): return "-" if v is None else v
-        return "ord=%s/tag=%s/label=%s" % (",".join(f(v) for v in self.ord), ",".join(f(v) for v in self.tag), f(self.label))
+    def name(self):
+        return "L%s.%s" % (self.level, self.kind)
 
-    def depth(self):
-        return sum(1 for v in self.ord if v) + sum(1 for v in self.tag if v)
 
-    def valid(self):
-        if self.ord[1] and self.ord[2]: return False
-        if self.tag[1] and self.tag[2]: return False
-        return (self.ord[3], self.tag[3]) in L3_OK
+class Base:
+    """events (textual order): ("open",) ("close",) ("decl", level) ("complete", level) ("probe", site)"""
+    QLEVELS = (0, 1, 2, 4)
 
-    # ---- the model -------------------------------------------------------------
-    def model(self):
-        """expected probe values: list for jmp=0 and jmp=1 of NSITES*2 values (ord, tag); UNSET where nothing is recorded"""
-        scopes = [[None, None]]          # innermost last; each scope: [ord binding, tag binding] = (level, kind)
-        sites = {}
-
-        def declare(level):
-            if self.ord[level]: scopes[-1][0] = (level, self.ord[level])
-            if self.tag[level]: scopes[-1][1] = (level, self.tag[level])
+    def walk(self):
+        scopes = [{"ord": None, "tag": None, "q": []}]
+        self.bind = {}
+        self.decls = {}
 
         def lookup(ns):
             for sc in reversed(scopes):
@@ -71,177 +85,426 @@ class Case:
                     return sc[ns]
             return None
 
-        def probe(site):
-            sites[site] = (lookup(0), lookup(1))
+        for ev in self.events():
+            if ev[0] == "open":
+                scopes.append({"ord": None, "tag": None, "q": []})
+            elif ev[0] == "close":
+                scopes.pop()
+            elif ev[0] == "decl":
+                l = ev[1]
+                t, o = self.tag.get(l), self.ord.get(l)
+                if t:
+                    cur = scopes[-1]["tag"]
+                    if cur is not None and t in DEFS and not cur.complete and cur.base == t:
+                        cur.complete, cur.size = True, value(l, t)       # definition completes the declaration of this scope
+                        d = cur
+                    else:
+                        assert cur is None, "second tag declaration in one scope"
+                        d = D(l, t)
+                        scopes[-1]["tag"] = d
+                    if d.base != "enum" and l in self.QLEVELS:
+                        scopes[-1]["q"].append((l, d))
+                        if d.q is None: d.q = l
+                    self.decls[("tag", l)] = d
+                if o:
+                    assert scopes[-1]["ord"] is None
+                    scopes[-1]["ord"] = D(l, o)
+            elif ev[0] == "complete":
+                d = scopes[-1]["tag"]
+                assert d is not None and d.level == ev[1] and not d.complete
+                d.complete, d.size = True, value(ev[1], d.base)
+            elif ev[0] == "probe":
+                o, t = lookup("ord"), lookup("tag")
+                qs = [(l, d is t) for sc in scopes for (l, d) in sc["q"]]
+                self.bind[ev[1]] = (o, t, bool(t and t.complete), t.size if t and t.complete else None, qs)
+        return self.bind
 
-        declare(0); probe(0)
-        scopes.append([None, None])      # parameters + outermost block of the body
-        declare(1); probe(1)
-        declare(2); probe(2)
-        scopes.append([None, None])      # the for statement is a block (6.8.5p5)
-        declare(3); probe(3)
-        scopes.append([None, None])      # its body is a compound statement
-        probe(4)
-        declare(4); probe(5)
-        scopes.pop()
-        probe(6)
-        scopes.pop()
-        probe(7)
-        scopes.pop()
-        probe(8)
-        self.bind = sites
+    # expected values of the 4 slots of a site
+    def expected(self, site, stmt_site):
+        o, t, comp, size, qs = self.bind[site]
+        out = [UNSET] * NSLOT
+        if o: out[0] = value(o.level, o.kind)
+        if t:
+            if t.base == "enum": out[1] = 4
+            elif comp: out[1] = size + (1000 * size if t.q is not None else 0)
+            if t.base != "enum" and qs:
+                out[2] = sum(1 << l for l, same in qs if same)
+            if t.base != "enum" and comp and stmt_site:
+                out[3] = COPIED
+        return out
+
+    # C text of the probes of a site: (list of expressions, statement text for the object probe or "")
+    def probes(self, site, X, i, stmt_site):
+        o, t, comp, size, qs = self.bind[site]
+        ex, st = [], ""
+        if o:
+            ex.append((0, "sizeof(%s)" % X if o.kind in ("obj", "typedef") else X))
+        if t:
+            K = t.base
+            if K == "enum": ex.append((1, "sizeof(enum %s)" % X))
+            elif comp: ex.append((1, "sizeof(%s %s)" % (K, X) + (" + 1000 * sizeof(*q%d_%d)" % (t.q, i) if t.q is not None else "")))
+            if K != "enum" and qs:
+                ex.append((2, " + ".join("_Generic(q%d_%d, %s %s *: %d, default: 0)" % (l, i, K, X, 1 << l) for l, _ in qs)))
+            if K != "enum" and comp and stmt_site:
+                st = ("{ %s %s a, b; b.c[sizeof b - 1] = %d; a.c[sizeof a - 1] = 1; a = b; FN(out)[%d] = a.c[sizeof a - 1]; }"
+                      % (K, X, COPIED, NSLOT * site + 3))
+        return ex, st
+
+    def pstmt(self, site, X, i):
+        ex, st = self.probes(site, X, i, True)
+        return " ".join(["FN(out)[%d] = (long)(%s);" % (NSLOT * site + k, e) for k, e in ex] + ([st] if st else []))
+
+    def pexpr(self, site, X, i, last):
+        ex, _ = self.probes(site, X, i, False)
+        return "(%s)" % ", ".join(["FN(out)[%d] = (long)(%s)" % (NSLOT * site + k, e) for k, e in ex] + [last])
+
+    def pconst(self, site, X, i):
+        ex = dict(self.probes(site, X, i, False)[0])
+        return ", ".join("(long)(%s)" % ex[k] if k in ex else str(UNSET) for k in range(3))
+
+    def tagdecl(self, l, X, i, static=""):
+        t = self.tag.get(l)
+        if not t: return ""
+        K = BASE[t]
+        if t in FWD: s = "%s %s;" % (K, X)
+        elif t == "enum": return "enum %s { e%d_%d = %d };" % (X, l, i, 60 + l)
+        else: s = "%s %s { char c[%d]; };" % (K, X, value(l, K))
+        if l in self.QLEVELS:
+            s += " %s%s %s *q%d_%d;" % (static, K, X, l, i)
+        return s
+
+    def latedecl(self, l, X):
+        t = self.tag.get(l)
+        return "%s %s { char c[%d]; };" % (BASE[t], X, value(l, BASE[t])) if t in LATE else ""
+
+    def orddecl(self, l, X, static=""):
+        o = self.ord.get(l)
+        if o == "obj": return "%schar %s[%d];" % (static, X, value(l, o))
+        if o == "typedef": return "typedef char %s[%d];" % (X, value(l, o))
+        if o == "enumr": return "enum { %s = %d };" % (X, value(l, o))
+        return ""
+
+    def depth(self):
+        return sum(1 for v in self.ord.values() if v) + sum(1 for v in self.tag.values() if v)
+
+    def nontrivial(self):
+        """the name denotes at least two different things over the probe sites of one name space"""
+        self.walk()
+        for ns in (0, 1):
+            if len(set(id(b[ns]) for b in self.bind.values())) >= 2:
+                return True
+        return False
+
+    def table(self):
+        runs = self.model()
+        return [1 if self.nontrivial() else 0] + runs[0] + runs[1]
+
+    def model_runs(self, stmt_sites, skip1):
+        """run 0 executes every site; run 1 (or None) executes all but skip1"""
+        self.walk()
         full = []
-        for s in range(NSITES):
-            for ns in (0, 1):
-                b = sites[s][ns]
-                full.append(UNSET if b is None else value(b[0], b[1], self))
+        for s in range(MAXSITES):
+            full += self.expected(s, s in stmt_sites) if s in self.bind else [UNSET] * NSLOT
         runs = [full]
-        if self.label:
-            # goto x from the top of the body: probes before the label are not executed (file-scope ones are constants)
-            # label in 'block' sits after site 2; label in 'inner' sits after site 5 (end of the for body; the for
-            # condition, site 3, is evaluated again after the increment)
-            skip = {"block": (1, 2), "inner": (1, 2, 4, 5)}[self.label]
-            j = list(full)
-            for s in skip:
-                j[2 * s] = j[2 * s + 1] = UNSET
-            runs.append(j)
+        if skip1 is None:
+            runs.append([UNSET] * NS)
         else:
-            runs.append([UNSET] * (2 * NSITES))
+            j = list(full)
+            for s in skip1:
+                j[NSLOT * s:NSLOT * s + NSLOT] = [UNSET] * NSLOT
+            runs.append(j)
         return runs
 
-    # ---- C text ------------------------------------------------------------------
+    def decode(self, slot, v):
+        """name of an observable (for signatures)"""
+        if v == UNSET: return "not-executed"
+        if slot == 2:
+            return "+".join("q%d" % l for l in range(8) if v >> l & 1) or "none"
+        if slot == 3:
+            return "copied" if v == COPIED else "not-copied"
+        def one(x):
+            for l in (0, 1, 2, 3, 4, 5, 6):
+                for k in ("obj", "typedef", "enumr", "struct", "union"):
+                    if value(l, k) == x: return "L%d.%s" % (l, k)
+            return ("enum-tag" if slot == 1 else "int") if x == 4 else "other"
+        if slot == 1 and v >= 1000:
+            return one(v % 1000) if v % 1000 == v // 1000 else "%s*q=%s" % (one(v % 1000), one(v // 1000))
+        return one(v)
+
+
+# ------------------------------------------------------------------------------------------------------------------
+# chain family
+# ------------------------------------------------------------------------------------------------------------------
+CH_SITES = ["file", "body-entry", "after-block-decls", "for-cond", "for-body-entry", "after-inner-decls", "for-inc", "after-for",
+            "file-after-function", "after-inner-completion", "after-block-completion"]
+S_FILE, S_ENTRY, S_BLOCK, S_COND, S_BODY, S_INNER, S_INC, S_AFTER, S_FILE2, S_INNER2, S_AFTER2 = range(11)
+CH_STMT_SITES = (S_ENTRY, S_BLOCK, S_BODY, S_INNER, S_INNER2, S_AFTER, S_AFTER2, S_FILE2)
+
+# for-init: 6.8.5p3 allows only objects (gcc rejects tags, typedefs and enumerators declared there)
+ORD = {0: (None, "obj", "typedef", "enumr"), 1: (None, "obj"), 2: (None, "obj", "typedef", "enumr"), 3: (None, "obj"),
+       4: (None, "obj", "typedef", "enumr")}
+TAG = {0: (None,) + DEFS + FWD, 1: (None,) + DEFS + ("sfwd", "ufwd"), 2: (None,) + DEFS + FWD, 3: (None,), 4: (None,) + DEFS + FWD}
+LABELS = (None, "block", "inner")
+
+
+class Case(Base):
+    family = "chain"
+
+    def __init__(self, ord_, tag, label):
+        self.ordt, self.tagt, self.label = tuple(ord_), tuple(tag), label
+        self.ord = dict(enumerate(self.ordt))
+        self.tag = dict(enumerate(self.tagt))
+
+    def cid(self):
+        def f(v): return "-" if v is None else v
+        return "ord=%s/tag=%s/label=%s" % (",".join(f(v) for v in self.ordt), ",".join(f(v) for v in self.tagt), f(self.label))
+
+    def site_name(self, s):
+        return CH_SITES[s]
+
+    def valid(self):
+        o, t = self.ordt, self.tagt
+        if o[1] and o[2]: return False
+        if t[1] in FWD:
+            if t[0]: return False                       # `struct x *p` would be a use of the file-scope x, not a declaration
+            if t[2] and t[2] != BASE[t[1]]: return False    # only a definition of the same kind may follow in that scope
+        elif t[1] and t[2]: return False
+        return t[3] is None
+
+    def events(self):
+        ev = [("decl", 0), ("probe", S_FILE), ("open",), ("decl", 1), ("probe", S_ENTRY), ("decl", 2), ("probe", S_BLOCK),
+              ("open",), ("decl", 3), ("probe", S_COND), ("probe", S_INC),         # the for statement is a block (6.8.5p5)
+              ("open",), ("probe", S_BODY), ("decl", 4), ("probe", S_INNER)]
+        if self.tagt[4] in LATE: ev.append(("complete", 4))
+        ev += [("probe", S_INNER2), ("close",), ("close",), ("probe", S_AFTER)]
+        if self.tagt[2] in LATE: ev.append(("complete", 2))
+        ev += [("probe", S_AFTER2), ("close",)]
+        if self.tagt[0] in LATE: ev.append(("complete", 0))
+        ev.append(("probe", S_FILE2))
+        return ev
+
+    def model(self):
+        """expected probe values: list for jmp=0 and jmp=1 of NS values; UNSET where nothing is recorded"""
+        # goto x from the top of the body: probes before the label are not executed (file-scope ones are constants).  The label
+        # in 'block' sits after site after-block-decls; in 'inner' at the end of the for body (the for condition is evaluated
+        # again after the increment)
+        skip = {None: None, "block": (S_ENTRY, S_BLOCK), "inner": (S_ENTRY, S_BLOCK, S_BODY, S_INNER, S_INNER2)}[self.label]
+        return self.model_runs(CH_STMT_SITES, skip)
+
     def source(self, i):
         X = "x%d" % i
-        self.model()
-        b = self.bind
-
-        def decl(level):
-            out = []
-            t = self.tag[level]
-            if t == "struct": out.append("struct %s { char c[%d]; };" % (X, value(level, t)))
-            if t == "union": out.append("union %s { char c[%d]; };" % (X, value(level, t)))
-            if t == "enum": out.append("enum %s { e%d_%d = %d };" % (X, level, i, 60 + level))
-            o = self.ord[level]
-            st = "static " if level == 0 else ""
-            if o == "obj": out.append("%schar %s[%d];" % (st, X, value(level, o)))
-            if o == "typedef": out.append("typedef char %s[%d];" % (X, value(level, o)))
-            if o == "enumr": out.append("enum { %s = %d };" % (X, value(level, o)))
-            return " ".join(out)
-
-        def probes(site, sep=" "):
-            out = []
-            for ns in (0, 1):
-                bd = b[site][ns]
-                if bd is None:
-                    continue
-                k = bd[1]
-                if k in ("obj", "typedef"): e = "sizeof(%s)" % X
-                elif k == "enumr": e = X
-                else: e = "sizeof(%s %s)" % (k, X)
-                out.append("FN(out)[%d] = (long)%s" % (2 * site + ns, e))
-            return out
-
-        def pstmt(site):
-            return " ".join(p + ";" for p in probes(site))
-
-        def pexpr(site, last):
-            ps = probes(site)
-            return "(%s)" % ", ".join(ps + [last]) if ps else last
-
-        lines = []
-        d0 = decl(0)
-        if d0: lines.append(d0)
-        lines.append("static long pf%d[2] = {%s};" % (i, ", ".join(self._const(b[0][ns], X) for ns in (0, 1))))
+        self.walk()
+        lines = [" ".join(s for s in (self.tagdecl(0, X, i, "static "), self.orddecl(0, X, "static ")) if s)]
+        lines.append("static long pf%d[3] = {%s};" % (i, self.pconst(S_FILE, X, i)))
         lines.append("static void g%d(void);" % i)        # defined after f: probes the file scope after the function's scopes ended
-        pa = "short %s" % X if self.ord[1] else "short a"
-        if self.tag[1]:
-            body = "char c[%d];" % value(1, self.tag[1]) if self.tag[1] != "enum" else "e1_%d = 61" % i
-            pb = "%s %s { %s } *p" % (self.tag[1], X, body)
-        else:
-            pb = "void *p"
+        pa = "short %s" % X if self.ordt[1] else "short a"
+        t1 = self.tagt[1]
+        if t1 in ("struct", "union"): pb = "%s %s { char c[%d]; } *q1_%d" % (t1, X, value(1, t1), i)
+        elif t1 == "enum": pb = "enum %s { e1_%d = 61 } *p" % (X, i)
+        elif t1 in FWD: pb = "%s %s *q1_%d" % (BASE[t1], X, i)
+        else: pb = "void *p"
         f = ["void FN(f%d)(%s, %s) {" % (i, pa, pb)]
-        f.append("int k = 0; FN(out)[0] = pf%d[0]; FN(out)[1] = pf%d[1]; g%d();" % (i, i, i))
+        f.append("int k = 0; %s g%d();" % (" ".join("FN(out)[%d] = pf%d[%d];" % (k, i, k) for k in range(3)), i))
         if self.label:
             f.append("if (FN(jmp)) goto %s;" % X)
-        f.append(pstmt(1))
-        f.append(decl(2))
-        f.append(pstmt(2))
+        f.append(self.pstmt(S_ENTRY, X, i))
+        f += [self.tagdecl(2, X, i), self.orddecl(2, X)]
+        f.append(self.pstmt(S_BLOCK, X, i))
         if self.label == "block":
             f.append("%s: ;" % X)
-        # for-init declaration
-        o3, t3 = self.ord[3], self.tag[3]
-        if t3 in ("struct", "union"):
-            spec = "%s %s { char c[%d]; }" % (t3, X, value(3, t3))
-        elif t3 == "enum":
-            spec = "enum %s { %s }" % (X, ("%s = %d" % (X, value(3, "enumr"))) if o3 == "enumr" else "e3_%d = 63" % i)
-        elif o3 == "enumr":
-            spec = "enum { %s = %d }" % (X, value(3, "enumr"))
-        else:
-            spec = "char"
-        if o3 == "obj":
-            init = "%s %s%s" % (spec, X, "[%d]" % value(3, "obj") if t3 is None else "")
-        elif o3 is None and t3 is None:
-            init = ""
-        else:
-            init = "%s v3" % spec
-        f.append("for (%s; %s; %s) {" % (init, pexpr(3, "k < 1"), pexpr(6, "k++")))
-        f.append(pstmt(4))
-        f.append(decl(4))
-        f.append(pstmt(5))
+        init = "char %s[%d]" % (X, value(3, "obj")) if self.ordt[3] else ""
+        f.append("for (%s; %s; %s) {" % (init, self.pexpr(S_COND, X, i, "k < 1"), self.pexpr(S_INC, X, i, "k++")))
+        f.append(self.pstmt(S_BODY, X, i))
+        f += [self.tagdecl(4, X, i), self.orddecl(4, X)]
+        f.append(self.pstmt(S_INNER, X, i))
+        f.append(self.latedecl(4, X))
+        f.append(self.pstmt(S_INNER2, X, i))
         if self.label == "inner":
             f.append("%s: ;" % X)
         f.append("}")
-        f.append(pstmt(7))
+        f.append(self.pstmt(S_AFTER, X, i))
+        f.append(self.latedecl(2, X))
+        f.append(self.pstmt(S_AFTER2, X, i))
         f.append("}")
         lines.append(" ".join(x for x in f if x))
-        lines.append("static long pg%d[2] = {%s};" % (i, ", ".join(self._const(b[8][ns], X) for ns in (0, 1))))
-        lines.append("static void g%d(void) { FN(out)[16] = pg%d[0]; FN(out)[17] = pg%d[1]; }" % (i, i, i))
-        return "\n".join(lines) + "\n"
-
-    def _const(self, bd, X):
-        if bd is None: return str(UNSET)
-        k = bd[1]
-        if k in ("obj", "typedef"): return "sizeof(%s)" % X
-        if k == "enumr": return X
-        return "sizeof(%s %s)" % (k, X)
+        lines.append(self.latedecl(0, X))
+        lines.append("static long pg%d[3] = {%s};" % (i, self.pconst(S_FILE2, X, i)))
+        lines.append("static void g%d(void) { %s %s }" % (i, " ".join("FN(out)[%d] = pg%d[%d];" % (NSLOT * S_FILE2 + k, i, k) for k in range(3)),
+                                                          self.probes(S_FILE2, X, i, True)[1]))
+        return "\n".join(l for l in lines if l) + "\n"
 
     def shrinks(self):
         out = []
         if self.label:
-            out.append(Case(self.ord, self.tag, None))
+            out.append(Case(self.ordt, self.tagt, None))
         for l in range(5):
-            if self.ord[l]:
-                o = list(self.ord); o[l] = None
-                out.append(Case(o, self.tag, self.label))
-            if self.tag[l]:
-                t = list(self.tag); t[l] = None
-                out.append(Case(self.ord, t, self.label))
+            if self.ordt[l]:
+                o = list(self.ordt); o[l] = None
+                out.append(Case(o, self.tagt, self.label))
+            if self.tagt[l]:
+                t = list(self.tagt); t[l] = None
+                out.append(Case(self.ordt, t, self.label))
+                if self.tagt[l] in LATE:
+                    t = list(self.tagt); t[l] = t[l][:-1]            # keep the declaration, drop the late completion
+                    out.append(Case(self.ordt, t, self.label))
         return [c for c in out if c.valid()]
 
 
-def decode(value_, case):
-    """which declaration has this observable (for signatures)"""
-    for l in range(5):
-        for k in ("obj", "typedef", "enumr", "struct", "union"):
-            if value(l, k, case) == value_ and (case.ord[l] == k or case.tag[l] == k):
-                return "L%d.%s" % (l, k)
-    if value_ == 4: return "enum-tag"
-    if value_ == UNSET: return "not-executed"
-    return "other"
+# ------------------------------------------------------------------------------------------------------------------
+# stmt family: block scopes of selection / iteration statements and their substatements; function prototype scope
+# ------------------------------------------------------------------------------------------------------------------
+ST_SITES = ["file", "before", "in-condition", "in-body", "in-else-or-increment", "after", "file-after-function", "in-parameter-list"]
+T_FILE, T_BEFORE, T_COND, T_BODY, T_ELSE, T_AFTER, T_FILE2 = range(7)
+ST_STMT_SITES = (T_BEFORE, T_AFTER, T_FILE2)
+KW_STMT = ("if", "while", "do", "for", "switch")
+KW_PROTO = ("fnptr", "proto", "fnptr0", "proto0")      # function-pointer declarator / function declaration, at block / file scope
+LC, LB = 5, 6                                           # "levels" of the declarations in the condition (parameter list) and the body
+ST_ORD = {0: (None, "obj", "typedef", "enumr"), 2: (None, "obj", "typedef", "enumr"), LC: (None, "enumr"), LB: (None, "enumr")}
+ST_TAG = {0: (None,) + DEFS, 2: (None,) + DEFS, LC: (None,) + DEFS, LB: (None,) + DEFS}
+
+
+class StmtCase(Base):
+    family = "stmt"
+    QLEVELS = (0, 2)
+
+    def __init__(self, kw, ord_, tag):
+        self.kw = kw
+        self.ord = dict(ord_)
+        self.tag = dict(tag)
+        self.label = None
+
+    def cid(self):
+        def f(v): return "-" if v is None else v
+        ls = (0, 2, LC, LB)
+        return "stmt=%s/ord=%s/tag=%s" % (self.kw, ",".join(f(self.ord.get(l)) for l in ls), ",".join(f(self.tag.get(l)) for l in ls))
+
+    def site_name(self, s):
+        if self.kw in KW_PROTO and s == T_COND: return "in-parameter-list"
+        return ST_SITES[s]
+
+    def valid(self):
+        if self.kw in KW_PROTO and (self.ord.get(LB) or self.tag.get(LB)): return False
+        return bool(self.ord.get(LC) or self.tag.get(LC) or self.ord.get(LB) or self.tag.get(LB))
+
+    def events(self):
+        kw = self.kw
+        ev = [("decl", 0), ("probe", T_FILE)]
+        if kw in ("fnptr0", "proto0"):
+            ev += [("open",), ("decl", LC), ("close",)]          # function prototype scope ends with the declarator
+        ev += [("open",), ("decl", 2), ("probe", T_BEFORE)]
+        body = [("open",), ("decl", LB), ("probe", T_BODY), ("close",)]
+        if kw in ("fnptr", "proto"):
+            ev += [("open",), ("decl", LC), ("close",)]
+        elif kw in ("while", "switch"):
+            ev += [("open",), ("decl", LC), ("probe", T_COND)] + body + [("close",)]
+        elif kw == "if":
+            ev += [("open",), ("decl", LC), ("probe", T_COND)] + body + [("open",), ("probe", T_ELSE), ("close",), ("close",)]
+        elif kw == "for":
+            ev += [("open",), ("decl", LC), ("probe", T_COND), ("probe", T_ELSE)] + body + [("close",)]
+        elif kw == "do":
+            ev += [("open",)] + body + [("decl", LC), ("probe", T_COND), ("close",)]
+        ev += [("probe", T_AFTER), ("close",), ("probe", T_FILE2)]
+        return ev
+
+    def model(self):
+        # if: run 0 takes the then-branch, run 1 the else-branch
+        if self.kw == "if":
+            r = self.model_runs(ST_STMT_SITES, (T_BODY,))
+            r[0][NSLOT * T_ELSE:NSLOT * T_ELSE + NSLOT] = [UNSET] * NSLOT
+            return r
+        return self.model_runs(ST_STMT_SITES, None)
+
+    def exprdecl(self, l, X, i):
+        """declarations inside an expression: a type name in sizeof"""
+        out = []
+        t, o = self.tag.get(l), self.ord.get(l)
+        if t == "enum": out.append("sizeof(enum %s { e%d_%d = %d })" % (X, l, i, 60 + l))
+        elif t: out.append("sizeof(%s %s { char c[%d]; })" % (t, X, value(l, t)))
+        if o: out.append("sizeof(enum { %s = %d })" % (X, value(l, o)))
+        return out
+
+    def paramdecl(self, X, i):
+        out = []
+        t, o = self.tag.get(LC), self.ord.get(LC)
+        if t == "enum": out.append("enum %s { e%d_%d = %d } *a" % (X, LC, i, 60 + LC))
+        elif t: out.append("%s %s { char c[%d]; } *a" % (t, X, value(LC, t)))
+        if o: out.append("enum { %s = %d } b" % (X, value(LC, o)))
+        return ", ".join(out)
+
+    def source(self, i):
+        X = "x%d" % i
+        kw = self.kw
+        self.walk()
+        lines = [" ".join(s for s in (self.tagdecl(0, X, i, "static "), self.orddecl(0, X, "static ")) if s)]
+        lines.append("static long pf%d[3] = {%s};" % (i, self.pconst(T_FILE, X, i)))
+        lines.append("static void g%d(void);" % i)
+        if kw == "fnptr0": lines.append("static void (*fp%d)(%s);" % (i, self.paramdecl(X, i)))
+        if kw == "proto0": lines.append("void FN(h%d)(%s);" % (i, self.paramdecl(X, i)))
+        f = ["void FN(f%d)(short a, void *p) {" % i]
+        f.append("int k = 0; %s g%d();" % (" ".join("FN(out)[%d] = pf%d[%d];" % (k, i, k) for k in range(3)), i))
+        f += [self.tagdecl(2, X, i), self.orddecl(2, X)]
+        f.append(self.pstmt(T_BEFORE, X, i))
+        def pe(site, last, decl=()):
+            ex, _ = self.probes(site, X, i, False) if site in self.bind else ((), "")
+            return "(%s)" % ", ".join(list(decl) + ["FN(out)[%d] = (long)(%s)" % (NSLOT * site + k, e) for k, e in ex] + [last])
+        body = pe(T_BODY, "0", self.exprdecl(LB, X, i)) + ";"
+        dc = self.exprdecl(LC, X, i)
+        if kw == "fnptr": f.append("void (*fp)(%s);" % self.paramdecl(X, i))
+        elif kw == "proto": f.append("void FN(h%d)(%s);" % (i, self.paramdecl(X, i)))
+        elif kw == "if": f.append("if (%s) %s else %s;" % (pe(T_COND, "FN(jmp) == 0", dc), body, pe(T_ELSE, "0")))
+        elif kw == "while": f.append("while (%s) %s" % (pe(T_COND, "k++ < 1", dc), body))
+        elif kw == "do": f.append("do %s while (%s);" % (body, pe(T_COND, "k++ < 1", dc)))
+        elif kw == "for": f.append("for (; %s; %s) %s" % (pe(T_COND, "k < 1", dc), pe(T_ELSE, "k++"), body))
+        elif kw == "switch": f.append("switch (%s) case 0: %s" % (pe(T_COND, "0", dc), body))
+        f.append(self.pstmt(T_AFTER, X, i))
+        f.append("}")
+        lines.append(" ".join(x for x in f if x))
+        lines.append("static long pg%d[3] = {%s};" % (i, self.pconst(T_FILE2, X, i)))
+        lines.append("static void g%d(void) { %s %s }" % (i, " ".join("FN(out)[%d] = pg%d[%d];" % (NSLOT * T_FILE2 + k, i, k) for k in range(3)),
+                                                          self.probes(T_FILE2, X, i, True)[1]))
+        return "\n".join(l for l in lines if l) + "\n"
+
+    def shrinks(self):
+        out = []
+        for l in (0, 2, LC, LB):
+            if self.ord.get(l):
+                o = dict(self.ord); o[l] = None
+                out.append(StmtCase(self.kw, o, self.tag))
+            if self.tag.get(l):
+                t = dict(self.tag); t[l] = None
+                out.append(StmtCase(self.kw, self.ord, t))
+        return [c for c in out if c.valid()]
 
 
 def enum_cases(tier):
+    """quick: chain cases with at most 3 declarations (labels with at most 2), stmt cases with at most 3 declarations;
+    thorough: chain: at most 5 declarations (labels with at most 4) plus all combinations of the definition kinds
+    (no incomplete declarations) with all labels; stmt: at most 5 declarations"""
     out = []
-    for o in itertools.product(*[ORD[l] for l in range(5)]):
-        for t in itertools.product(*[TAG[l] for l in range(5)]):
-            base = Case(o, t, None)
-            if not base.valid():
-                continue
-            d = base.depth()
-            if tier == "quick" and d > 3:
+    cmax, lmax, smax = (3, 2, 3) if tier == "quick" else (5, 4, 5)
+    ords = [(o, sum(1 for v in o if v)) for o in itertools.product(*[ORD[l] for l in range(5)]) if not (o[1] and o[2])]
+    tags = []
+    for t in itertools.product(*[TAG[l] for l in range(5)]):
+        if Case((None,) * 5, t, None).valid():
+            tags.append((t, sum(1 for v in t if v), not any(v in FWD for v in t)))
+    for o, do in ords:
+        for t, dt, old in tags:
+            d = do + dt
+            full = tier == "thorough" and old
+            if d > cmax and not full:
                 continue
             for lab in LABELS:
-                if tier == "quick" and lab and d > 2:
+                if lab and d > lmax and not full:
                     continue
                 out.append(Case(o, t, lab))
+    ls = (0, 2, LC, LB)
+    for kw in KW_STMT + KW_PROTO:
+        for o in itertools.product(*[ST_ORD[l] for l in ls]):
+            do = sum(1 for v in o if v)
+            for t in itertools.product(*[ST_TAG[l] for l in ls]):
+                if do + sum(1 for v in t if v) > smax:
+                    continue
+                c = StmtCase(kw, dict(zip(ls, o)), dict(zip(ls, t)))
+                if c.valid():
+                    out.append(c)
     return out
